@@ -570,6 +570,33 @@ def check_mach_list(prog: Program, rep, rule: str) -> None:
     f = prog.func(C.M_TC, '_get_only_mach_data')
     rep.saw(f)
     p = f.positional[0]
+    # by evaluation on tables of 1-4 entries with symbolic Mach and drag values: the result, whatever sequence type it is and
+    # however it is built, holds the Mach of entry 0, 1, ... in that order
+    ddp = prog.cls(C.M_DM, 'DragDataPoint')
+    verdict = None
+    try:
+        for n_ in (1, 2, 3, 4):
+            ev = Evaluator(prog)
+            ev.unroll = True
+            st = State()
+            pts = [ev.new_inst(st, ddp, {'Mach': S(f'm{i}'), 'CD': S(f'c{i}')}) for i in range(n_)]
+            out, st = ev.call_value(f, [ev.new_list(st, pts)], st=st)
+            its = ev.items(st, out)
+            if its is None:
+                raise Undecided(f'returns {out!r}')
+            good = len(its) == n_ and all(isinstance(x_, Scalar) and x_.rf.equals(A.sym(f'm{i}')) for i, x_ in enumerate(its))
+            if not good:
+                verdict = f'for a table of {n_} entries it returns [{", ".join(ev.describe(x_) for x_ in its)}]'
+                break
+        if verdict is None:
+            rep.ok(rule, f.where, 'Mach nodes = the Mach of every table entry, in table order (evaluated on tables of 1-4 entries)')
+        else:
+            rep.fail(rule, tc.path, f.node.lineno, f.qualname, 'mach-list',
+                     f'the list of Mach nodes is not the Mach of every table entry in table order ({verdict}): the selector '
+                     f'searches different nodes than the curve was built from')
+        return
+    except Undecided:
+        pass                # not readable by evaluation: the two spellings the pinned code and its obvious twin use
     ok = False
     rets = [r for r in ast.walk(f.node) if isinstance(r, ast.Return)]
     loops = [s_ for s_ in f.node.body if isinstance(s_, ast.For)]
@@ -588,9 +615,7 @@ def check_mach_list(prog: Program, rep, rule: str) -> None:
     if ok:
         rep.ok(rule, f.where, 'Mach nodes = [entry.Mach for entry in table], in table order')
     else:
-        rep.fail(rule, tc.path, f.node.lineno, f.qualname, 'mach-list',
-                 'the list of Mach nodes is not the Mach of every table entry in table order: the selector searches '
-                 'different nodes than the curve was built from')
+        raise AnalysisError('_get_only_mach_data is readable neither by evaluation nor as a comprehension / append loop')
 
 
 def check_bc(prog: Program, rep, rule: str) -> None:
